@@ -417,13 +417,13 @@ PINNED = [
 # ------------------------------------------------------------------------------------------------
 
 def run(tier: str, seed: int) -> int:
-    chk = C.Check("C12", tier, seed, "proof (structural half full, navigation half partial) + validator + play + model tie")
+    chk = C.Check("C12", tier, seed, "proof")
     props = C.coq_gate(chk)
     C.use_repo()
     rng = chk.rng
     quick = tier == "quick"
     n_lines, n_engine, n_mut_per_file, depth, cap, n_walks, walk_len = \
-        (450, 90, 3, MAX_DEPTH_QUICK, 60, 4, 12) if quick else (4000, 900, 25, MAX_DEPTH_THOROUGH, 400, 20, 40)
+        (450, 90, 3, MAX_DEPTH_QUICK, 60, 4, 12) if quick else (2500, 300, 12, MAX_DEPTH_THOROUGH, 150, 10, 30)
     n_defaults, matrix_share = (80, 0.2) if quick else (400, 0.5)
     dist = {"families": {}, "outcomes": {}, "accepted": {}, "call_sites": {"choice": 0, "jump": 0, "nested": 0, "with-args": 0,
                                                                            "to-@join": 0},
